@@ -517,8 +517,9 @@ class Scenario(object):
     """Finite facts a path depends on."""
     def __init__(self, name='', bind=None, axioms=None, inline=None, inline_props=None, max_depth=3, self_cls=None,
                  args=None, unroll=None, oracle=None, forward_stores=True, model_del=True, join_unknown=False,
-                 decide_filters=False, raises=None):
+                 decide_filters=False, raises=None, tables=False):
         self.name = name
+        self.tables = tables              # decide lookups with a constant key in dict displays / class / module table constants (DictV)
         self.bind = bind or {}            # dotted path -> Val
         self.axioms = axioms or {}        # normalised condition text -> bool
         self.inline = inline              # callable(FunctionInfo) -> bool, or None = default policy
@@ -1236,7 +1237,7 @@ class Frame(object):
             return None
         if isinstance(op, (ast.In, ast.NotIn)):
             neg = isinstance(op, ast.NotIn)
-            hit = dict_lookup(r, l, st)
+            hit = dict_lookup(r, l, st) if self.sc.tables else None
             if hit is not None:
                 return (not hit[0]) if neg else hit[0]
             if isinstance(l, Const) and isinstance(r, ListV) and all(isinstance(e, Const) for e in r.elems):
@@ -1781,7 +1782,7 @@ class Frame(object):
                 return Bytes([mk_slice(merge_consts(base.items), lo, hi)])
             return Bytes([mk_slice(render(base), lo, hi)])
         idx = self.ev(sl, st)
-        hit = dict_lookup(base, idx, st) if isinstance(getattr(node, 'ctx', None), ast.Load) else None
+        hit = dict_lookup(base, idx, st) if self.sc.tables and isinstance(getattr(node, 'ctx', None), ast.Load) else None
         if hit is not None and hit[0]:
             return hit[1]
         if isinstance(base, ListV) and isinstance(idx, Const) and isinstance(idx.value, int):
@@ -1979,7 +1980,7 @@ class Frame(object):
                         return r
                     return Sym('%s.%s(%s)' % (recv.ci.name, meth, ', '.join(render(a) for a in args)))
             if isinstance(recv, DictV) and meth == 'get' and 1 <= len(args) <= 2 and not kwargs:
-                hit = dict_lookup(recv, args[0], st)
+                hit = dict_lookup(recv, args[0], st) if self.sc.tables else None
                 if hit is not None:          # constant key among constant keys: the lookup is decided
                     record(ftext)
                     return hit[1] if hit[0] else (args[1] if len(args) == 2 else Const(None))
